@@ -105,6 +105,12 @@ def rule_owned_packer_delegates(ctx, R):
         e = ExprBuilder(b).place(0, ())
         ok = e.kind == 'call' and e.name.rsplit('::', 1)[-1] == 'from_vec' and len(e.args) == 1 and \
             e.args[0].strip().kind == 'place' and e.args[0].strip().root == ('param', 1)
+        if not ok:
+            # both conversions spliced from one shared (new) packing helper are one routine as well
+            sib = [x for x in ctx.F.fn_bodies() if x.npath == b.npath and x is not b and 'f32x8' in x.locals[0] and
+                   x.locals[1].replace(' ', '') in ('&std::vec::Vec<f32>', '&[f32]')]
+            mine = set(b.d.get('inlined') or [])
+            ok = bool(mine) and any(mine & set(x.d.get('inlined') or []) for x in sib)
         ctx.check(ok, R, b, 'owned-conversion-delegates-to-the-borrowed-packer', repr(e)[:80],
                   'Feature::from_vec(Vec<f32>) is %r, not Feature::from_vec(&vec): the two conversions of one vector can '
                   'produce different blocks (padding / block count)' % e)
